@@ -350,6 +350,15 @@ def simpleExec (s : St) : Stmt → Res Flow
      | some (x, c) => evalThen s (.binOp (.name x c) op e) (fun v => .ok (.normal (s.assign x v)))
      | none => .stuck)
   | .assert_ c _ => evalThen s c (fun v => if v.truthy then .ok (.normal s) else .raised "AssertionError" s)
+  | .annAssign tg _ v simple =>
+    -- an annotated name inside a function: the annotation is not evaluated (PEP 526); at module level it is, which is
+    -- outside the core
+    if s.locals.isSome && simple then
+      (match nameOf tg, v with
+       | some (x, _), some e => evalThen s e (fun w => .ok (.normal (s.assign x w)))
+       | some _, none => .ok (.normal s)
+       | none, _ => .stuck)
+    else .stuck
   | .import_ names => .ok (.normal (importAll s names))
   | .importFrom m names level => if hasStar names then .stuck else .ok (.normal (importFromAll m level s names))
   | .raise_ e c =>
@@ -499,6 +508,10 @@ def bindS : Stmt → Option (List String)
   | .assign ts e => (match assignTarget ts with | some x => oguard (coreX e) (some [x]) | none => none)
   | .augAssign tg _ e => (match nameOf tg with | some (x, _) => oguard (coreE e) (some [x]) | none => none)
   | .assert_ c m => oguard (coreE c && (match m with | some e => coreE e | none => true)) (some [])
+  | .annAssign tg ann v simple =>
+    (match nameOf tg with
+     | some (x, _) => oguard (simple && coreE ann && (match v with | some e => coreE e | none => true)) (some [x])
+     | none => none)
   | .import_ names => some (names.map aliasBound)
   | .importFrom _ names _ => oguard (!hasStar names) (some (names.map fromBound))
   | .raise_ e c => oguard (raiseName e c).isSome (some [])
